@@ -32,6 +32,8 @@ def opsC19 : List (String × Op) := [
       pure [("model.lens", lensOf m), ("model.flat", flatOf m),
             ("topo", ofBool (isTopo ds seq)),
             ("closed", ofBool (dsClosed ds mask)),
+            -- hypothesis of `streams_model_ok`: the order contains every stream cell
+            ("covers", ofBool ((List.range ds.size).all fun i => !inStream ds mask i || seq.contains i)),
             ("spec.ok", ofBool (StreamsOK ds mask maxLen impl)),
             ("spec.flags", certFlags ds mask maxLen impl),
             ("model.ok", ofBool (StreamsOK ds mask maxLen m)),
